@@ -23,6 +23,7 @@ structure DState where
   recent : List Nat := []
   srv    : Server.Srv := Server.Srv.init 0 0
   conn   : Conn.St := Conn.St.init false false
+  connAdv : Option Bool := some false
   sconn  : Sieve.Conn := ⟨none, false, 0⟩
   ns     : Namespace.NS := ⟨0, [], [], 1⟩
   rw     : RWLock.St := RWLock.St.init []
@@ -326,10 +327,13 @@ def handle (st : DState) (line : String) : DState × String :=
   | ["sieve", "step", c] =>
     let r := Sieve.step st.sconn st.sstore (parseSieveCmd c)
     ({ st with sconn := r.1, sstore := r.2.1 }, showSieveResp r.2.2 ++ " " ++ (match r.1.user with | some u => toString u | none => "-"))
-  | ["conn", "reset", lo, tls] => ({ st with conn := Conn.St.init (lo == "1") (tls == "1") }, "ok")
+  | ["conn", "reset", lo, tls] =>
+    let w := Conn.Wire.init (lo == "1") (tls == "1")
+    ({ st with conn := w.st, connAdv := w.adv }, "ok")
   | ["conn", "step", c] =>
-    let r := Conn.step st.conn (parseConnCmd c)
-    ({ st with conn := r.1 }, showConnResp r.2 ++ " " ++ showConnSt r.1)
+    let r := Conn.wstep ⟨st.conn, st.connAdv⟩ (parseConnCmd c)
+    ({ st with conn := r.1.st, connAdv := r.1.adv },
+     showConnResp r.2 ++ " " ++ showConnSt r.1.st ++ " adv=" ++ (match r.1.adv with | some true => "1" | some false => "0" | none => "-"))
   | ["log", "reset"] => ({ st with lbox := Mailbox.MBox.new, lobs := [] }, "ok")
   | ["log", "observer", _] => ({ st with lobs := st.lobs ++ [(Sync.View.empty, none)] }, "ok")
   | ["log", "update", us] =>
